@@ -161,6 +161,18 @@ def bounded_tree_laws(p):
         same = expect(lambda: view.copy_and_set(Key(pp), cur).data)
         if not S.check(same[0] == 'ok' and _eq(same[1], snapshot), dict(tree=repr(t), path=repr(pp), law='set to current value'), f'setting {Key(pp)!r} of {t!r} to its current value gives {same}', cls='idempotent'):
           return S.result()
+    # a path ending in SELF denotes the node before it, for existing and for fresh branches alike
+    for pp in existing + list(_fresh_paths(t)):
+      if any(isinstance(_get(t, pp[:j]), np.ndarray) for j in range(len(pp)) if pp[:j] in existing or j == 0):
+        continue
+      kp = Key(pp + (Key.SELF,))
+      res = expect(lambda: view.copy_and_set(kp, ('NEW',)))
+      if res[0] != 'ok':
+        continue
+      got = expect(lambda: res[1][kp])
+      if not S.check(got == ('ok', ('NEW',)) and _eq(t, snapshot), dict(tree=repr(t), path=repr(tuple(kp)), law='get after set, path ending in SELF', fresh=pp not in existing),
+                     f'after copy_and_set({kp!r}) on {t!r} the view reads {got} in {res[1].data!r}', cls=f'self-tail-{pp not in existing}'):
+        return S.result()
     # SELF / SKIP
     got = expect(lambda: view.copy_and_set(Key.SELF, marker).data)
     if not S.check(got == ('ok', marker), dict(tree=repr(t), law='SELF replaces the root'), f'copy_and_set(SELF) = {got}', cls='self'):
@@ -187,3 +199,78 @@ def bounded_tree_laws(p):
   got = expect(lambda: list(TreeMapView(np.array([1, 2])).keys()))
   S.check(got[0] == 'ok' and len(got[1]) == 1, dict(tree='ndarray root', law='root leaf enumeration', falsy=False, ndarray=True), f'TreeMapView(ndarray).keys() = {got}', cls='root-leaf-array')
   return S.result()
+
+
+def _key_from_witness(w, j):
+  kind = w.get(f'kind{j}', 0)
+  if kind == 1:
+    return Key.Index(int(w.get(f'int{j}', 0)))
+  if kind == 2:
+    return Key.SELF if w.get(f'self{j}') else Key.SKIP
+  if kind == 3:
+    return Key.Literal('lit')
+  return f'k{j}'
+
+
+def _path_from_witness(w):
+  n = w.get('path_len', 0)
+  if not isinstance(n, int) or not 0 <= n <= 6:
+    return None
+  return tuple(_key_from_witness(w, j) if j < 2 else f'k{j}' for j in range(n))
+
+
+def replay_default_tree(p):
+  """Replays a counterexample of a `_default_tree` obligation: the fresh chain must read back the value."""
+  path = _path_from_witness(p['witness'])
+  if path is None:
+    return dict(violated=False, detail='witness outside the replayable domain')
+  value = ('VALUE',)
+  got = expect(lambda: tree._default_tree(Key(path), value))
+  if got[0] != 'ok':
+    return dict(violated=False, detail=f'_default_tree({Key(path)!r}) raises {got}')
+  back = expect(lambda: TreeMapView(got[1])[Key(path)])
+  ok = back[0] == 'ok' and back[1] is value
+  return dict(violated=not ok, detail=f'_default_tree({Key(path)!r}, value) = {got[1]!r}; reading the same key path gives {back}')
+
+
+def replay_set_by_path(p):
+  """Replays a counterexample of a `_set_by_path` obligation on an empty container of the witness kind."""
+  w = p['witness']
+  path = _path_from_witness(w)
+  if path is None:
+    return dict(violated=False, detail='witness outside the replayable domain')
+  root = {1: {}, 2: [], 3: (), 4: tree.NullMap()}.get(w.get('tree_kind'), 7)
+  snapshot = copy.deepcopy(root) if not isinstance(root, tree.NullMap) else None
+  value = ('VALUE',)
+  got = expect(lambda: TreeMapView(root).copy_and_set(Key(path), value))
+  if got[0] != 'ok':
+    return dict(violated=False, detail=f'copy_and_set({Key(path)!r}) on {root!r} raises {got}')
+  back = expect(lambda: got[1][Key(path)])
+  plain = not any(isinstance(k, tree.Literal) or k is Key.SKIP for k in path)
+  ok = (not plain or (back[0] == 'ok' and back[1] is value)) and (snapshot is None or root == snapshot)
+  return dict(violated=not ok, detail=f'copy_and_set({Key(path)!r}, value) on {root!r} gives {got[1].data!r}; reading the key path gives {back}; original now {root!r}')
+
+
+def _ref_get(t, path):
+  for k in path:
+    if k is Key.SELF:
+      return t
+    if isinstance(k, tree.Literal):
+      return k.value
+    if not isinstance(t, (dict, list, tuple)):
+      raise KeyError(k)
+    t = t[k]
+  return t
+
+
+def replay_get(p):
+  """Replays a counterexample of a read obligation on an empty container of the witness kind."""
+  w = p['witness']
+  path = _path_from_witness(w)
+  if path is None:
+    return dict(violated=False, detail='witness outside the replayable domain')
+  root = {1: {}, 2: [], 3: (), 4: tree.NullMap()}.get(w.get('tree_kind'), 7)
+  got = expect(lambda: TreeMapView(root)[Key(path)])
+  ref = expect(lambda: _ref_get(root, path))
+  ok = (got[0] == ref[0]) and (got[0] != 'ok' or got[1] is ref[1] or got[1] == ref[1])
+  return dict(violated=not ok, detail=f'TreeMapView({root!r})[{Key(path)!r}] = {got}; reference read {ref}')
